@@ -15,6 +15,7 @@ grep -q "zvt_feig_terminal/tests" $OUT/RUN.md 2>/dev/null && CRATE=zvt_feig_term
 NAME=$(basename "$DEMO" .rs)
 FEAT=""
 [ $CRATE = zvt_feig_terminal ] && grep -q "zvt_verif" $OUT/RUN.md 2>/dev/null && FEAT="--features zvt_verif"
+[ -n "$FEAT" ] && grep -q "tokio/test-util" $OUT/RUN.md 2>/dev/null && FEAT="--features zvt_verif,tokio/test-util"
 cd $WT
 run_demo() { mkdir -p $CRATE/tests; cp $DEMO $CRATE/tests/; timeout 900 cargo test -p $CRATE --test $NAME --offline $FEAT 2>&1 | grep -E "^test result|panicked|error(\[|:)" | head -5; rm -f $CRATE/tests/$NAME.rs; }
 echo "== demo on unchanged tree" >> $LOG; run_demo >> $LOG
